@@ -439,4 +439,48 @@ example : ∀ x : ℝ, 0 ≤ x → Real.sqrt x * Real.sqrt x = x := fun _ hx => 
 example : ∀ x : ℝ, 0 ≤ Real.sqrt x := Real.sqrt_nonneg
 end examples
 
+/-! ### the loop of `relax` on top of the real step (two-image paths: every image is kept by the re-spacing) -/
+section relaxphase
+variable {K V : Type} [Add V] [Sub V] [Neg V] [SMul K V] [Add K] [Sub K] [Mul K] [Div K] [Neg K] [NatCast K]
+  [LT K] [DecidableLT K]
+
+/-- a phase of `relax` performs as many steps as it records displacement measures, at most `n` … -/
+theorem relaxPhase_steps_le (p : Path V K) (dot : V → V → K) (sqrt : K → K) (h tol : K) (n : Nat) (c : List V) :
+    (p.relaxPhase dot sqrt h tol n c).2.length ≤ n := by
+  induction n generalizing c with
+  | zero => simp [Path.relaxPhase]
+  | succ n ih =>
+    simp only [Path.relaxPhase]
+    split
+    · simp
+    · have := ih (c.map (p.stepRow h)); simp only [List.length_cons]; omega
+
+/-- … its result is that many plain steps of the images … -/
+theorem relaxPhase_eq_iterate (p : Path V K) (dot : V → V → K) (sqrt : K → K) (h tol : K) (n : Nat) (c : List V) :
+    (p.relaxPhase dot sqrt h tol n c).1 = p.iterateRows h (p.relaxPhase dot sqrt h tol n c).2.length c := by
+  induction n generalizing c with
+  | zero => simp [Path.relaxPhase, Path.iterateRows]
+  | succ n ih =>
+    simp only [Path.relaxPhase]
+    split
+    · simp [Path.iterateRows]
+    · simp only [List.length_cons, Path.iterateRows]; exact ih _
+
+/-- … and the number of steps is the one the control-flow model `phaseSteps` gives for the recorded measures
+    (the model that the scripted `relax` runs are compared with). -/
+theorem relaxPhase_steps_eq_phaseSteps (p : Path V K) (dot : V → V → K) (sqrt : K → K) (h tol : K) (n : Nat) (c : List V) :
+    (p.relaxPhase dot sqrt h tol n c).2.length = phaseSteps tol n (p.relaxPhase dot sqrt h tol n c).2 := by
+  induction n generalizing c with
+  | zero => simp [Path.relaxPhase, phaseSteps]
+  | succ n ih =>
+    simp only [Path.relaxPhase]
+    split
+    · rename_i hd; simp [phaseSteps, hd]
+    · rename_i hd
+      simp only [List.length_cons, phaseSteps, hd, if_false]
+      have := ih (c.map (p.stepRow h))
+      omega
+
+end relaxphase
+
 end Atomman.C20
